@@ -19,7 +19,7 @@ from harness.tranp_env import REPO
 
 # --- generated module families ---------------------------------------------------------------------------------
 
-LEAF = {1: 'def make() -> int:\n\treturn 1\n', 2: "def make() -> str:\n\treturn 'x'\n"}
+LEAF = {1: 'def make() -> int:\n\treturn 1\n', 2: "def make() -> str:\n\treturn 'x'\n", 4: 'def make() -> float:\n\treturn 1.5\n'}
 
 
 # file stems of the abstract modules: every dotted path is a substring of the paths listed before it in the target order
@@ -27,7 +27,7 @@ LEAF = {1: 'def make() -> int:\n\treturn 1\n', 2: "def make() -> str:\n\treturn 
 STEM = {'a': 'n10', 'b': 'n1', 'c': 'n', 'd': 'n100'}
 UNSTEM = {v: k for k, v in STEM.items()}
 
-BODY_CLASS = {1: 1, 2: 2, 3: 1}  # variant 3 = variant 1 with a different layout (same emitted text, other file hash)
+BODY_CLASS = {1: 1, 2: 2, 3: 1, 4: 4}  # variant 3 = variant 1 with a different layout (same emitted text, other file hash)
 
 
 def source_of(graph: str, m: str, v: int) -> str:
@@ -41,12 +41,12 @@ def _source_of(graph: str, m: str, v: int) -> str:
 		# layout-only edit: a blank line before the last statement / definition and one at the end
 		head, sep, last = text.rstrip('\n').rpartition('\n\n') if '\n\n' in text.rstrip('\n') else ('', '', text.rstrip('\n'))
 		return (f'{head}\n\n\n{last}\n\n' if sep else f'\n{last}\n\n')
-	if graph == 'Chain':
+	if graph in ('Chain', 'Pair'):
 		if m == 'c':
 			return LEAF[v]
 		if m == 'b':
-			return 'from vm.c import make\n\nv = make()\n' if v == 1 else 'from vm.c import make\n\nv = [make()]\n'
-		return 'from vm.b import v\n\nx = v\n' if v == 1 else 'from vm.b import v\n\nx = v\ny = 0\n'
+			return {1: 'from vm.c import make\n\nv = make()\n', 2: 'from vm.c import make\n\nv = [make()]\n', 4: 'from vm.c import make\n\nv = {0: make()}\n'}[v]
+		return {1: 'from vm.b import v\n\nx = v\n', 2: 'from vm.b import v\n\nx = v\ny = 0\n', 4: 'from vm.b import v\n\nx = v\nz = 1.5\n'}[v]
 	if graph == 'Diamond':
 		if m == 'd':
 			return LEAF[v]
@@ -60,6 +60,7 @@ def _source_of(graph: str, m: str, v: int) -> str:
 
 GRAPHS = {
 	'Chain': {'mods': ['a', 'b', 'c'], 'targets': ['a', 'b', 'c']},
+	'Pair': {'mods': ['b', 'c'], 'targets': ['b', 'c']},
 	'Diamond': {'mods': ['a', 'b', 'c', 'd'], 'targets': ['d', 'a', 'c', 'b']},
 }
 
@@ -108,11 +109,14 @@ class World:
 	def out_path(self, m: str) -> str:
 		return os.path.join(self.out_dir, 'vm', f'{STEM[m]}.h')
 
-	def edit(self, m: str, v: int) -> None:
+	def edit(self, m: str, v: int, t: int | None = None) -> None:
+		"""new content and new modification time; t = the time of the specification (1 = initial), default: one later than before"""
 		with open(self.src_path(m), 'w') as f:
 			f.write(source_of(self.graph, m, v))
-		self.clock += 10
-		os.utime(self.src_path(m), (self.clock, self.clock))
+		self.times = getattr(self, 'times', {})
+		self.times[m] = t if t is not None else self.times.get(m, 0) + 1
+		stamp = 1_700_000_000 + 10 * self.times[m]
+		os.utime(self.src_path(m), (stamp, stamp))
 
 	def run(self, enabled: bool, force: bool) -> str:
 		"""One run of the real command-line runner = one fresh application (own loader memo, module table, DB)."""
